@@ -67,6 +67,22 @@ type tList struct {
 	types []*types.Type
 }
 
-func (t tList) Len() int           { return len(t.types) }
-func (t tList) Less(i, j int) bool { return t.namer.Name(t.types[i]) < t.namer.Name(t.types[j]) }
-func (t tList) Swap(i, j int)      { t.types[i], t.types[j] = t.types[j], t.types[i] }
+func (t tList) Len() int { return len(t.types) }
+func (t tList) Less(i, j int) bool {
+	a, b := t.types[i], t.types[j]
+	if na, nb := t.namer.Name(a), t.namer.Name(b); na != nb {
+		return na < nb
+	}
+	// Several entries can get the same name (e.g. the same type name in
+	// two packages).  Break the tie on the entry's own identity, so that
+	// the order is the same on every run rather than whatever map
+	// iteration and an unstable sort make of it.
+	if a.Name.Package != b.Name.Package {
+		return a.Name.Package < b.Name.Package
+	}
+	if a.Name.Name != b.Name.Name {
+		return a.Name.Name < b.Name.Name
+	}
+	return a.Kind < b.Kind
+}
+func (t tList) Swap(i, j int) { t.types[i], t.types[j] = t.types[j], t.types[i] }
